@@ -55,6 +55,7 @@ theorem cancel_move_closed : ∀ a b, cancelFamily a = true → WfMove anyReq a 
   | taskEvent ev rem act oc h => exact tbl_cancel_closed_task _ _ _ _ _ _ ha h
   | taskEventUnreach ev rem act oc h _ _ => rfl
   | wfEvent req x y z _ h => exact tbl_cancel_closed_wf _ _ _ _ _ _ ha h
+  | wfEventUnreach req x y z _ h _ _ => rfl
 
 /-- **C10** (closure): once the workflow is canceling or canceled (or has failed), no history of
     status requests, next-task queries, completion reports and output renderings — whatever the
@@ -102,6 +103,7 @@ theorem C04_failed_final (E : Evaluator) (ops : List Op) (hops : ∀ op ∈ ops,
   | taskEvent ev rem act oc h => exact tbl_failed_absorbing_task _ _ _ _ _ h
   | taskEventUnreach ev rem act oc h _ _ => rfl
   | wfEvent req x y z _ h => exact tbl_failed_absorbing_wf _ _ _ _ _ h
+  | wfEventUnreach req x y z _ h _ _ => rfl
 
 /-- **C04**: `canceled` is absorbing along every rerun-free history (in particular it is not
     turned into `failed` by the unreachable-join check). -/
@@ -115,6 +117,7 @@ theorem C04_canceled_final (E : Evaluator) (ops : List Op) (hops : ∀ op ∈ op
   | taskEventUnreach ev rem act oc h hne _ =>
     exact absurd (tbl_canceled_absorbing_task _ _ _ _ _ h) hne
   | wfEvent req x y z _ h => exact tbl_canceled_absorbing_wf _ _ _ _ _ h
+  | wfEventUnreach req x y z _ h hne _ => exact absurd (tbl_canceled_absorbing_wf _ _ _ _ _ h) hne
 
 /-- **C04**: from `succeeded` the only exit (without rerun) is to `failed`, and only through a
     request for `failed` (output rendering error, or the provider's own request). -/
@@ -131,11 +134,13 @@ theorem C04_succeeded_final (E : Evaluator) (ops : List Op) (hops : ∀ op ∈ o
       rcases tbl_succeeded_wf _ _ _ _ _ h with h1 | h1
       · exact Or.inl h1
       · exact Or.inr h1.1
+    | wfEventUnreach req x y z _ h _ _ => exact Or.inr rfl
   · right
     cases m with
     | taskEvent ev rem act oc h => exact tbl_failed_absorbing_task _ _ _ _ _ h
     | taskEventUnreach ev rem act oc h _ _ => rfl
     | wfEvent req x y z _ h => exact tbl_failed_absorbing_wf _ _ _ _ _ h
+    | wfEventUnreach req x y z _ h _ _ => rfl
 
 /-- single call: a completion report, a next-task query or an output rendering can take
     `succeeded` only to `succeeded` or `failed`, and a report alone leaves `succeeded` unchanged
@@ -169,6 +174,7 @@ theorem C09_report_while_pausing (b : Status) (m : WfMove onlyFailed .pausing b)
       cases req <;> first | rfl | exact absurd hA (by decide)
     subst this
     exact tbl_pausing_failed_req _ _ _ _ h
+  | wfEventUnreach req x y z hA h _ _ => rfl
 
 /-- from `paused` the only task reports that set the workflow running again are a task reported
     running or resuming (the provider resuming a paused or pending task) -/
